@@ -334,6 +334,23 @@ Theorem c08_end_to_end_lines :
 Proof. exact (@line_table_ok). Qed.
 Print Assumptions c08_end_to_end_lines.
 
+(* STACK WIN tables through the generated insert_win_stack_info + parser-local builder, in plain arithmetic, for any
+   list of (u64 address, u32 size, rest) records and either profile: a lookup returns a record of the file, possibly
+   shortened, with address <= x < address + size (no overflow); a record that no other ranged record of its type
+   intersects is returned as written *)
+Theorem c08_end_to_end_win : forall p (l : list winrec), wf_recs l ->
+  exists t, g_win_table p l = Ret t /\
+    StronglySorted (fun a b => snd (fst a) < fst (fst b)) t /\
+    (forall x w, rm_get t x = Some w ->
+       exists w0, In w0 l /\ wa w0 = wa w /\ wt w0 = wt w /\ 0 < ws w <= ws w0 /\
+                  wa w + ws w < two64 /\ wa w <= x < wa w + ws w) /\
+    (forall la w lb x, l = la ++ w :: lb -> ws w <> 0 -> wa w + ws w < two64 -> wa w <= x < wa w + ws w ->
+       (forall w', In w' (la ++ lb) ->
+          ws w' = 0 \/ two64 <= wa w' + ws w' \/ wa w' + ws w' <= wa w \/ wa w + ws w <= wa w') ->
+       rm_get t x = Some w).
+Proof. exact win_end_to_end. Qed.
+Print Assumptions c08_end_to_end_win.
+
 (* ---- non-vacuity: the hypotheses are met by concrete, non-trivial inputs ---- *)
 Example c08_nonvacuous_wf :
   wf_entries [(mk_range 18446744073709551610 6, 1); (mk_range 0 0, 2); (mk_range 5 10, 3);
